@@ -94,7 +94,17 @@ func (r *Runner) open(f afero.File, err error) string {
 	return fmt.Sprintf("h=%d", len(r.H)-1)
 }
 
-func infoLine(fi os.FileInfo) string {
+// Atomically wraps the reading of a FileInfo's accessors. The controlled-scheduler harness replaces
+// it so that the accessors of one Stat result are read without preemption (a FileInfo is a live
+// view; reading its fields is not part of the Stat call whose atomicity C04 is about).
+var Atomically = func(f func()) { f() }
+
+func infoLine(fi os.FileInfo) (out string) {
+	Atomically(func() { out = infoLine1(fi) })
+	return
+}
+
+func infoLine1(fi os.FileInfo) string {
 	return fmt.Sprintf("info name=%s size=%d dir=%v mode=%d", corr.HexS(fi.Name()), fi.Size(), fi.IsDir(), uint32(fi.Mode()))
 }
 
